@@ -169,7 +169,7 @@ pub fn run(tier: Tier) -> i32 {
     let seed = ctx.seed;
 
     // ---------------------------------------------------------------- scope 1: all chunk sequences
-    for (reduced, depth) in tier.pick(vec![(false, 3usize)], vec![(false, 4usize)]) {
+    for (reduced, depth) in tier.pick(vec![(false, 3usize)], vec![(false, 4usize), (true, 5usize)]) {
         let kinds = chunk_kinds(seed, reduced);
         let name = format!("chunk-sequences/{}kinds/depth<={}", kinds.len(), depth);
         if !ctx.may_start(&name) {
@@ -473,6 +473,6 @@ pub fn run(tier: Tier) -> i32 {
             ctx.scope_done(name, ncases, t0, "64 KiB / 2 MiB chunk sizes, all control-byte size bits, mid-stream dictionary reset");
         }
     }
-    ctx.set_extra("bounds", json!({"chunks_per_sequence": tier.pick(3, 4)}));
+    ctx.set_extra("bounds", json!({"chunks_per_sequence": tier.pick(3, 4), "chunks_per_sequence_reduced_kinds": tier.pick(0, 5)}));
     ctx.finish()
 }
